@@ -83,6 +83,53 @@ theorem cut_reversed_raises (ns : List T) (ha : atomicL ns = true)
   · exact ⟨m, by simp [cutList, hm]⟩
   · exact ⟨m, by simp [cutList, hrs, hfin]⟩
 
+/-- **Nothing is invented about a bounded include**: a marker is reported as not found only when the included file holds
+no such marker, the order is reported as wrong only when it holds both, and a wanted marker that the file does not hold
+is always reported. -/
+theorem cut_diags_sound (wantS wantE : Bool) (ns : List T) :
+    (CutDiag.noStart ∈ cutDiags wantS wantE ns → wantS = true ∧ hasSL ns = false) ∧
+    (CutDiag.noEnd ∈ cutDiags wantS wantE ns → wantE = true ∧ hasEL ns = false) ∧
+    (CutDiag.reversed ∈ cutDiags wantS wantE ns → hasSL ns = true ∧ hasEL ns = true) := by
+  unfold cutDiags
+  split
+  · rename_i m hm
+    have := (cut_error_only_reversed ns m hm).1
+    simp [this]
+  · rename_i r hr
+    obtain ⟨out, s, e⟩ := r
+    have hf := cut_flags ns out s e hr
+    obtain ⟨hs, he⟩ := hf
+    subst hs; subst he
+    refine ⟨?_, ?_, ?_⟩
+    · intro h
+      cases wantS <;> cases hS : hasSL ns <;> cases wantE <;> cases hE : hasEL ns <;> simp_all
+    · intro h
+      cases wantS <;> cases hS : hasSL ns <;> cases wantE <;> cases hE : hasEL ns <;> simp_all
+    · intro h
+      cases wantS <;> cases hS : hasSL ns <;> cases wantE <;> cases hE : hasEL ns <;> simp_all
+
+theorem cut_diags_complete (wantS wantE : Bool) (ns : List T) :
+    (wantS = true → hasSL ns = false → CutDiag.noStart ∈ cutDiags wantS wantE ns) ∧
+    (wantE = true → hasEL ns = false → CutDiag.noEnd ∈ cutDiags wantS wantE ns) := by
+  unfold cutDiags
+  split
+  · rename_i m hm
+    have := (cut_error_only_reversed ns m hm).1
+    simp [this]
+  · rename_i r hr
+    obtain ⟨out, s, e⟩ := r
+    obtain ⟨hs, he⟩ := cut_flags ns out s e hr
+    subst hs; subst he
+    constructor <;> intro hw hh <;> simp [hw, hh]
+
+/-- The code before the repair: with the markers in the wrong order it also reported both of them as not found. -/
+theorem cut_diags_old_invents :
+    ∃ ns, hasSL ns = true ∧ hasEL ns = true ∧ CutDiag.noStart ∈ cutDiagsOld true true ns ∧ CutDiag.noEnd ∈ cutDiagsOld true true ns :=
+  ⟨[.node ⟨0, false, true⟩ [], .node ⟨1, true, false⟩ []], by decide, by decide, by decide, by decide⟩
+
+example : cutDiags true true [.node ⟨0, false, true⟩ [], .node ⟨1, true, false⟩ []] = [.reversed] := by decide
+example : cutDiags true true [.node ⟨0, false, false⟩ [], .node ⟨1, true, false⟩ []] = [.noEnd] := by decide
+
 /-- what `between` is, spelled out: units before the start marker and after the end marker are
 gone, everything from the one to the other is kept in order -/
 theorem between_explicit (pre mid post : List Tag) (s e : Tag)
